@@ -34,7 +34,7 @@ chk("C05",
 chk("C01",
     "Bounded symbolic execution of every exported text/bytes/IP-consuming function of netutil, hostsfile, urlutil and stringutil with all Go run-time panic sites, "
     "explicit panics and unwinding failures as assertions, over all byte strings up to a length bound, ARPA-shaped names, all net.IP lengths and all netip address kinds; "
-    "an API enumeration guard makes the check inconclusive when an exported function is neither driven nor excluded.",
+    "an API enumeration guard lists every exported function that is neither driven nor excluded as outside the claim (NOTE line, outside_bound in the evidence).",
     SMT + "; panic sites and unwinding as assertions, no oracle",
     "timeutil.Duration text methods are not driven (listed as excluded in the evidence).")
 
